@@ -44,7 +44,9 @@ SUBDIRS = ['d', 'd/e', 'g']
 
 def layout(assign, extra_lines=0):
     cd, ce, cg = assign
-    md, me, mg = mname('d', cd), mname('d/e', ce), mname('g', cg)
+    # g's Manifest has a stem that ends in a letter shared by every compression suffix ('Manifest.z[.gz|.bz2|.lzma|.xz]'):
+    # names are (de)composed by suffix, never by character class
+    md, me, mg = mname('d', cd), mname('d/e', ce), mname('g', cg, 'Manifest.z')
     pad = [('L', f'DIST pad{i}.tar {i} SHA1 ' + '0' * 40) for i in range(extra_lines)]
     return [
         MSpec(TOP, [('F', 'DATA', 'f0', H1), ('M', md, H1), ('M', mg, H1),
